@@ -17,5 +17,6 @@ class Match(FilterFunction):
         try:
             # re.fullmatch caches compiled patterns internally
             return bool(re.fullmatch(pattern, string))
-        except (TypeError, re.error):
+        except (TypeError, re.error, OverflowError):
+            # OverflowError: a repetition count beyond what `re` accepts.
             return False
